@@ -121,9 +121,10 @@ func newDest(routeName, addr string) *dest.Destination {
 	}
 	// no spool: while the destination has no connection every line is counted as
 	// conn_down_no_spool by the destination that received it.  One connection attempt at start
-	// (and one per address update), the next in an hour.  The connection buffer is larger than
-	// any batch of keys, so a connected destination has no reason to drop (slow_conn is read too).
-	d, err := dest.New(routeName, m, addr, "", false, false, time.Second, time.Hour, 1<<16, 4096, 100, 1000, 10,
+	// (and one per address update), the next in an hour.  Every key is followed by a Flush(), which
+	// the connection's writer handles itself, so its buffer of 1000 lines never fills up (a line
+	// dropped for a slow connection would be seen in the slow_conn counter all the same).
+	d, err := dest.New(routeName, m, addr, "", false, false, time.Second, time.Hour, 1000, 4096, 100, 1000, 10,
 		time.Second, time.Millisecond, time.Millisecond)
 	if err != nil {
 		panic(err)
@@ -355,10 +356,11 @@ func (x *runner) update(o op) {
 	if err != nil {
 		ev["err"] = err.Error()
 	}
-	// Destination.Update dials synchronously and takes the new address over only when the dial
-	// succeeded; for an address of the driver's own listener that is expected: wait for it
+	// Destination.Update dials synchronously (under the route lock) and takes the new address over
+	// only when the dial succeeded, before UpdateDestination returns; for an address of the driver's
+	// own listener that is expected.  Nothing asynchronous is involved, the poll is only a margin.
 	adopted := false
-	deadline := time.Now().Add(20 * time.Second)
+	deadline := time.Now().Add(time.Second)
 	for {
 		d, err := x.r.GetDestination(o.Slot)
 		if err == nil && d.Addr == hostport && d.Instance == inst {
@@ -378,6 +380,7 @@ func (x *runner) update(o op) {
 	if adopted && n.Listen != 0 {
 		// the relay loop takes the new connection over asynchronously
 		d, _ := x.r.GetDestination(o.Slot)
+		deadline = time.Now().Add(20 * time.Second)
 		for !d.Online && time.Now().Before(deadline) {
 			atomic.AddInt64(&progressTick, 1)
 			time.Sleep(200 * time.Microsecond)
@@ -449,6 +452,9 @@ func TestRing(t *testing.T) {
 	if err != nil {
 		t.Fatal(err)
 	}
+	// every connection allocates two keepSafe buffers of this capacity (default 100000 slots, and
+	// again every 10 s); nothing here needs them, and with dozens of connections they dominate the run
+	dest.VerifC14SetKeepSafeCap(256)
 	log := hx.NewLog(os.Getenv("VERIF_RING_TRACE"))
 	defer log.Close()
 	progress := hx.NewLog(filepath.Join(out, "ring_progress.ndjson"))
